@@ -122,6 +122,23 @@ Proof.
   eapply is_max_unique; [apply Hset|apply Hd|apply lww_run_max|apply lww_run_max].
 Qed.
 
+(* LINEARISATION INDEPENDENCE: the same deliveries in ANY order give the same state map. Merge, Set and Expire are
+   atomic (they hold the store lock), so a concurrent execution is some permutation of its operations' deliveries:
+   whatever interleaving the scheduler picks, the outcome is the one of any sequential order (distinct update
+   times per id). harness/c09/race_test.go judges the real, concurrently running code against this. *)
+Lemma timely_k_perm k ds1 ds2 x : ds1 ≡ₚ ds2 -> In x (timely_k k ds1) <-> In x (timely_k k ds2).
+Proof.
+  intros Hp. unfold timely_k. rewrite <- !elem_of_list_In, !elem_of_list_fmap.
+  split; intros (d & -> & Hd); exists d; (split; [reflexivity|]);
+    apply elem_of_list_filter in Hd as [H1 H2]; apply elem_of_list_filter; (split; [exact H1|]).
+  - rewrite <- Hp. exact H2.
+  - rewrite Hp. exact H2.
+Qed.
+
+Theorem mrun_permutation s0 ds1 ds2 :
+  ds1 ≡ₚ ds2 -> (forall k, distinct_upd (s0 !! k) (timely_k k ds1)) -> mrun s0 ds1 = mrun s0 ds2.
+Proof. intros Hp Hd. apply mrun_convergence; [|exact Hd]. intros k x. apply timely_k_perm. exact Hp. Qed.
+
 Theorem mrun_newest s0 ds k : is_max (mrun s0 ds !! k) (s0 !! k) (timely_k k ds).
 Proof. rewrite mrun_lookup. apply lww_run_max. Qed.
 
